@@ -6,6 +6,7 @@ package biscuit
 // GOVC_OBLIGATION and prints "REPRODUCED: ..." when the code misbehaves.
 
 import (
+	"github.com/biscuit-auth/biscuit-go/v2/pb"
 	"bytes"
 	"crypto/ed25519"
 	"crypto/rand"
@@ -189,4 +190,35 @@ func govcFind(s, sub string) string {
 		e = len(s)
 	}
 	return s[i:e]
+}
+
+// TestGovcReplayShortSecret: C10 — a serialized token whose proof carries a
+// next secret that is not 32 bytes long.
+func TestGovcReplayShortSecret(t *testing.T) {
+	for _, n := range []int{0, 1, 3, 31, 33, 64} {
+		tok, pub := govcToken(t)
+		if n == 0 {
+			continue // an empty secret decodes to a sealed-looking proof; covered by n >= 1
+		}
+		tok.container.Proof.Content.(*pb.Proof_NextSecret).NextSecret = bytes.Repeat([]byte{7}, n)
+		ser, err := tok.Serialize()
+		if err != nil {
+			t.Fatal(err)
+		}
+		p := func() (p interface{}) {
+			defer func() { p = recover() }()
+			got, err := Unmarshal(ser)
+			if err != nil {
+				return nil
+			}
+			got.Authorizer(pub)
+			return nil
+		}()
+		if p != nil {
+			fmt.Printf("REPRODUCED: serialized token with a %d-byte next secret: Unmarshal succeeds and Authorizer(pub) panics: %v\n", n, p)
+			t.Fail()
+			return
+		}
+	}
+	fmt.Println("no failing input found")
 }
